@@ -39,8 +39,10 @@ def balance(cname, ts):
         obs = []
         info = src.info(replayer='balance', extra={'cfg': cname, 'ts': ts})
 
+        suffix = ':cluster-site-aliases-vacancy' if cfg.get('opts', {}).get('aliasing') else ''
+
         def ob(n, v):
-            obs.append(('%s:%s' % (name, n), v, dict(info, sig='balance:' + n.split('@')[0])))
+            obs.append(('%s:%s' % (name, n), v, dict(info, sig='balance:' + n.split('@')[0] + suffix)))
         with shim.symbolic_mode():
             MC = mc.make_sampler(cfg, V, socc, jumps=True, ts=ts)
             MC.start(mocc.copy())
@@ -83,8 +85,8 @@ def balance(cname, ts):
     return fn
 
 
-QUICK = [('sc221', True), ('hcp211', True), ('sc221v', True), ('b2-211', False), ('fcc122v', True)]
-THOROUGH = QUICK + [('hcp221', True), ('sc222', True), ('hcp211', False), ('sc122v', True), ('b2-113v', True), ('fcc211', True), ('sc221-o3', True)]
+QUICK = [('sc221', True), ('hcp211', True), ('sc221v', True), ('b2-211', False), ('fcc122v', True), ('b2-113v', True), ('b2-211v', True), ('b2t-221v-o3', True), ('b2t-221-o3', True), ('b2-113v-o3', True)]
+THOROUGH = QUICK + [('hcp221', True), ('sc222', True), ('hcp211', False), ('sc122v', True), ('fcc211', True), ('sc221-o3', True), ('b2-221v', True), ('b2-211', True), ('b2t-321v-o3', True), ('b2-211-o3', True)]
 
 
 def sections(tier):
